@@ -91,7 +91,7 @@ func main() {
 				ok = true
 			}
 			if ok {
-				fmt.Printf("%s %d %d\n", s.Hex(), len(tab), i)
+				fmt.Printf("%s %d %d %d\n", s.Hex(), len(tab), i, tab[0])
 				found++
 			}
 		}
@@ -374,6 +374,20 @@ wait:
 			ep.mu.Lock()
 			k := len(ep.pieces)
 			ep.mu.Unlock()
+			ep.mu.Lock()
+			tot := 0
+			for _, p := range ep.pieces {
+				tot += p
+			}
+			ep.mu.Unlock()
+			// "never returns" while still writing: a terminating Write puts its data, and per shortfall at most
+			// one target plus a segment and a header of padding, on the wire; 40 such shortfalls in a row do not
+			// happen with a seeded sampler, so this is a Write that only pads for ever.
+			if tot > n+21*(n/1427+1)+40*1500 {
+				w.Emit(vt.Ev{"event": "Hang", "cid": ep.cid, "n": n, "kind": "runaway", "pieces_so_far": k, "bytes_so_far": tot})
+				w.Flush()
+				return false
+			}
 			if k != lastN {
 				lastN, lastChange = k, time.Now()
 			} else if time.Since(lastChange) > 6*time.Second {
